@@ -46,6 +46,10 @@ def build_corpus(tier, rng):
             en_v, dis_v = Variant(a, "unit"), Variant(b, "unit", [], [DISABLED])
             vs = [Variant("First", "unit")] + ([en_v, dis_v] if order == 0 else [dis_v, en_v]) + [Variant("Last", "unit", [], [ser("l")])]
             items.append(("snake-twin", Item("E", vs)))
+    # every option of the other derives around `disabled` (before / after it, one list / several)
+    for it in G.foreign_option_items(rng, 30 if thorough else 8, unit_only=True, allow_default=False, tag="U"):
+        if any(not v.has("disabled") for v in it.variants):
+            items.append(("foreign-options", it))
     # a RAW identifier and an enabled sibling named like it without `r#`: two variants, two slots (the slot of `r#fn` is not the slot of `Fn`)
     for names in (["r#fn", "Fn"], ["Type", "r#type", "Other"], ["r#match", "Plain", "Match", "r#loop"], ["r#Self_", "Self_"]):
         if names[0] == "r#Self_":
